@@ -75,16 +75,16 @@ def check_sat(name, assumptions, timeout_ms=20000, key=None):
     if r == z3.unsat: return ob(name, 'broken', solver_s=dt, key=key, detail='VACUOUS: assumptions unsatisfiable')
     return ob(name, 'undecided', solver_s=dt, key=key, detail='witness unknown')
 
-def divisor_obligations(name, st, pre=(), timeout_ms=10000, model_vars=None, key=None):
+def divisor_obligations(name, st, pre=(), timeout_ms=10000, model_vars=None, key=None, tactic=None):
     """every fdiv executed on this path has a non-zero divisor; every sqrt a non-negative argument"""
     out = []; k = 0
     for e in st.events:
         if e[0] == 'div':
             k += 1
-            out.append(prove('%s/div%d' % (name, k), list(pre) + st.pc[:e[2]], e[1] != 0, timeout_ms, model_vars, key=key or (name + '/div')))
+            out.append(prove('%s/div%d' % (name, k), list(pre) + st.pc[:e[2]], e[1] != 0, timeout_ms, model_vars, key=key or (name + '/div'), tactic=tactic))
         elif e[0] == 'sqrt':
             k += 1
-            out.append(prove('%s/sqrtarg%d' % (name, k), list(pre) + st.pc[:e[2]], e[1] >= 0, timeout_ms, model_vars, key=key or (name + '/sqrt')))
+            out.append(prove('%s/sqrtarg%d' % (name, k), list(pre) + st.pc[:e[2]], e[1] >= 0, timeout_ms, model_vars, key=key or (name + '/sqrt'), tactic=tactic))
     return out
 
 def _run_job(job):
